@@ -56,12 +56,39 @@ end
 
 def leC (a b : Value) : Bool := cmp a b != .gt
 
+/-! floats are IEEE-754 binary64 bit patterns; what the collection functions need of them
+    (`==` / hash against integers, ordering, exact arithmetic) is integer arithmetic on the bits -/
+
+/-- the exact value `m * 2^e` of a finite double; `none` for inf / nan -/
+def fltParts (w : UInt64) : Option (Int × Int) :=
+  let n : Nat := w.toNat
+  let ex : Nat := n / 2 ^ 52 % 2048
+  let man : Nat := n % 2 ^ 52
+  if ex == 2047 then none
+  else
+    let m : Nat := if ex == 0 then man else 2 ^ 52 + man
+    let e : Int := if ex == 0 then -1074 else (ex : Int) - 1075
+    some (if n / 2 ^ 63 % 2 == 1 then -(m : Int) else (m : Int), e)
+
+/-- the integer a double is `==` to (and hashes like), if there is one -/
+def fltInt? (w : UInt64) : Option Int :=
+  match fltParts w with
+  | none => none
+  | some (m, e) =>
+    if m == 0 then some 0
+    else if e ≥ 0 then some (m * 2 ^ e.toNat)
+    else
+      let d : Int := 2 ^ (-e).toNat
+      if m % d == 0 then some (m / d) else none
+
 mutual
 /-- canonical form: `True`/`False` are the integers 1/0 (as Python's `==` and `hash`
     have it), set elements and dict entries are sorted. Two values are `==` in Python
-    iff their canonical forms are structurally equal. -/
+    iff their canonical forms are structurally equal.  A double that is a whole number is
+    that integer (`1.0 == 1 == True`, one dict key, one set element). -/
 def canon : Value → Value
   | bool b => int (if b then 1 else 0)
+  | flt w => (match fltInt? w with | some n => int n | none => flt w)
   | tuple l => tuple (canonL l)
   | list l => list (canonL l)
   | iter l => iter (canonL l)
